@@ -78,6 +78,27 @@ def _group_obs(net, src, tgt, o):
                 o["gl"][label] = which
         except Exception as ex:
             o["x"][label] = type(ex).__name__
+    # ... and the single-network n.s.i. measures of the SAME object after it has answered the group measures
+    # (the invariance is a statement about the network, whatever it was asked before)
+    n = inet.N
+    for name in AFTER_GROUP:
+        label = "I.%s@after_group" % name
+        try:
+            a = np.asarray(getattr(inet, name)())
+            if a.ndim == 0:
+                o["s"][label] = enc.num(a[()])
+            elif a.ndim == 1 and a.shape[0] == n:
+                o["v"][label] = enc.arr(a)
+            elif a.ndim == 2 and a.shape == (n, n):
+                o["m"][label] = enc.arr(a)
+        except Exception as ex:
+            o["x"][label] = type(ex).__name__
+
+
+# defined on every undirected network (no withdrawal by name needed)
+AFTER_GROUP = ("nsi_degree", "nsi_closeness", "nsi_harmonic_closeness", "nsi_exponential_closeness",
+               "nsi_average_path_length", "nsi_global_efficiency", "nsi_local_clustering", "nsi_transitivity",
+               "nsi_global_clustering", "nsi_average_neighbors_degree", "nsi_max_neighbors_degree", "nsi_twinness")
 
 
 def observe(net, src, tgt):
